@@ -183,6 +183,11 @@ func (s *Scheduler) run(now time.Time) {
 	})
 	for _, e := range entries {
 		t := e.Next
+		if t.IsZero() {
+			// The schedule has no activation time within the cron parser's
+			// search horizon (e.g. "0 0 31 2 *"): there is nothing to run.
+			continue
+		}
 		if t.After(now) {
 			break
 		}
